@@ -572,7 +572,8 @@ theorem centerV_mapV_node (t : RT) (k : Kind) (a : Rat) (ch : List VEnt) (hcov :
     | [.arr vs], hc, hl =>
         simp only [Option.some.injEq] at hc
         subst hc
-        simp only [wfVL, wfV, Bool.and_true, Bool.not_eq_true', List.isEmpty_eq_false_iff] at hl
+        simp only [wfVL, wfV, Bool.and_true, decide_eq_true_eq, arrayMinRows] at hl
+        have hl : vs ≠ [] := by intro h0; rw [h0] at hl; simp at hl
         simp only [List.map, mapV, Option.some.injEq]
         exact (RT.pt_avg t vs hl).symm
     | [], hc, _ => simp at hc
